@@ -354,6 +354,19 @@ static void record_viol(struct slot *s, const char *key, const char *msg)
     fmt_trace(v->trace, sizeof(v->trace), s, 0);
     s->nviol = n + 1;
 }
+/* the worker cannot decide (e.g. a wall-clock hang in a real-thread run): leave with the
+ * "inconclusive" exit status; the supervisor reports INCONCLUSIVE (exit 2), never a violation */
+void vrt_inconclusive(const char *fmt, ...)
+{
+    char msg[256];
+    va_list ap;
+    va_start(ap, fmt);
+    vsnprintf(msg, sizeof(msg), fmt, ap);
+    va_end(ap);
+    vrt_log("INCONCLUSIVE (worker %d, case %lld): %s\n", widx, S ? (long long)S->cur_case : -1LL, msg);
+    _exit(77);
+}
+
 void vrt_report(const char *key, const char *fmt, ...)
 {
     char msg[512];
@@ -960,7 +973,20 @@ int vrt_main(int argc, char **argv, const struct vrt_harness *h)
         if (i == W) continue;
         alive--;
         G->slot[i].pid = 0;
-        if (!G->slot[i].finished || WIFSIGNALED(st) || (WIFEXITED(st) && WEXITSTATUS(st) != 0)) {
+        if (WIFEXITED(st) && WEXITSTATUS(st) == 77) {
+            inconclusive = 1;
+            snprintf(inconc_msg, sizeof(inconc_msg), "worker %d declared case %lld inconclusive (see its .err file / stderr)",
+                     i, (long long)G->slot[i].cur_case);
+            G->slot[i].finished = 1;
+            if (!G->stop && G->next_case < G->ncases) {
+                pid_t np;
+                G->slot[i].gen++; G->slot[i].cur_case = -1; G->slot[i].finished = 0;
+                fflush(NULL);
+                np = fork();
+                if (np == 0) { worker_main(i, -1); _exit(0); }
+                if (np > 0) { G->slot[i].pid = np; alive++; }
+            }
+        } else if (!G->slot[i].finished || WIFSIGNALED(st) || (WIFEXITED(st) && WEXITSTATUS(st) != 0)) {
             /* abnormal death (or a tool such as memcheck/TSan turning the exit status non-zero after
              * the worker finished): build a violation from the progress page */
             const int was_finished = G->slot[i].finished;
